@@ -55,6 +55,7 @@ def run(ctx):
     body = roles.ib(prog, fnk, extra_stop=[x for x in (keyed, numpad) if x])
     layout = tables.load_json("Probhat.json")["layout"]
     used_literals = {}
+    numpad_encs = set()
     for v, row in sorted(rows.items()):
         names = by_val.get(v, [])
         key = "arm:%s" % (names[0] if names else hex(v))
@@ -86,8 +87,12 @@ def run(ctx):
                 r1.violation(key, "number-pad key %s is not routed through the numpad-gated helper" % name, site)
                 continue
             if not (third.k == "arg" and third.a[0] == 4):
-                r1.violation(key, "number-pad key %s does not pass the numpad option parameter (got %r)" % (name, third), site)
-                continue
+                # the option may be handed on re-coded as a private two-variant enum made from it
+                enc = common.encoded_switch(prog, getattr(prog, "_layout_alts", {}).get(v, []), 4)
+                if enc is None or enc[3] != 2:
+                    r1.violation(key, "number-pad key %s does not pass the numpad option parameter (got %r)" % (name, third), site)
+                    continue
+                numpad_encs.add(enc)
             if lit not in layout:
                 r1.violation(key, "entry %r used for %s is not an entry of the bundled layout" % (lit, name), site)
                 continue
@@ -400,9 +405,26 @@ def run(ctx):
             return x.k != "call" and r.k == "arg" and r.a[0] == 1 and len(f) == 1
 
         atoms = [("is_empty", is_empty_atom)]
-        if is_np:
+        rewrite = None
+        if is_np and numpad_encs:
+            if len(numpad_encs) != 1:
+                r3.violation(key, "the number-pad arms re-code the option in different ways: %s" % sorted(numpad_encs), common.fn_line(prog, helper))
+                continue
+            _adt, v_on, v_off, _n = next(iter(numpad_encs))
+
+            def is_on_atom(x, v_on=v_on):
+                return x.k == "bin" and x.a[0] == "Eq" and strip_refs(x.a[1]).k == "discr" and upvar_atom(strip_refs(strip_refs(x.a[1]).a[0])) \
+                    and is_const(x.a[2], "int") and const_val(x.a[2]) == v_on
+
+            def rewrite(d, v_off=v_off):
+                # the enum has exactly two variants: `is the off variant` ⇔ ¬`is the on variant`
+                if d.k == "bin" and d.a[0] == "Eq" and strip_refs(d.a[1]).k == "discr" and is_const(d.a[2], "int") and const_val(d.a[2]) == v_off:
+                    return E("un", "Not", E("bin", "Eq", d.a[1], E("const", ("int", v_on))))
+                return d
+            atoms.append(("numpad", is_on_atom))
+        elif is_np:
             atoms.append(("numpad", upvar_atom))
-        tt = truth_table(cb, atoms)
+        tt = truth_table(cb, atoms, rewrite)
         if tt is None:
             r3.undecidable(key, "cannot summarise the filter closure as a boolean function", common.fn_line(prog, ck))
             continue
